@@ -1,10 +1,11 @@
-import PhysisModel.Base.Bytes
+import PhysisModel.Base.StrF
 /-!
 Model of `EXL::from_existing` (`src/exl.rs`) as used by `GameData::read_excel_sheet_header` and
 `GameData::get_all_sheet_names` to read `exd/root.exl`: `BufRead::lines` (split at `\n`, a `\r`
 just before the `\n` is dropped, a final line without `\n` counts when non-empty),
 `str::split_once(',')`, `i32::from_str`, the `EXLT` version row and the `#` comment rule.
-Input is taken to be ASCII (`lines()` stops at a line that is not UTF-8 — not modelled).
+`lines()` yields `Err` for a line that is not UTF-8 and `map_while(Result::ok)` ends the loop
+there: the lines before it count, the rest of the file is ignored (`utf8Lines`).
 (The C05 copy, in its own namespace; the read/write round trip of EXL files is C08's subject.)
 -/
 namespace Physis.ExcelRootList
@@ -67,7 +68,12 @@ def step (exl : EXL) (line : Bytes) : EXL :=
     | none => exl
   | none => exl
 
+/-- `reader.lines().map_while(Result::ok)`: the lines up to the first one that is not valid UTF-8
+(`read_line` validates the line it has read — `\r`, `\n` are ASCII, so the stripped line is valid
+exactly when the raw one is) -/
+def utf8Lines (buffer : Bytes) : List Bytes := (lines buffer).takeWhile StrF.validUtf8
+
 /-- `EXL::from_existing` (always `Some`) -/
-def fromExisting (buffer : Bytes) : EXL := (lines buffer).foldl step ⟨0, []⟩
+def fromExisting (buffer : Bytes) : EXL := (utf8Lines buffer).foldl step ⟨0, []⟩
 
 end Physis.ExcelRootList
